@@ -118,10 +118,42 @@ def run(oc, tier, seed, model_available, escalate):
             if mode == "only_erasures" and f == 0:
                 pass  # early return path
         m2, p2 = bytes(rx[:len(msg)]), bytes(rx[len(msg):])
+        if mode == "errors" and i % 9 == 4 and nsym >= 2:
+            # directed: a parity cut short (truncated ecc file): the facade right-pads it with nulls; with the cut symbols counted as wrong
+            # symbols (where the original parity was not null) the pattern stays within capacity, so the full original must come back
+            cut = rng.randint(1, nsym // 2)
+            p2 = bytes(par[:nsym - cut])
+            m2 = bytes(msg)
+            within = True
+            oc.count("directed: parity cut short by <= (n-k)/2 symbols")
+        if mode == "erasures" and i % 12 == 11 and nsym >= 3:
+            # directed: 2e+f = n-k+1 with ONE wrong symbol and n-k-1 erased ones (mostly in the parity): the decoders do not refuse this,
+            # they return another codeword - the facade's own radius check must (correspondence only; nothing is required of the result)
+            rx = bytearray(word)
+            order = list(range(len(msg), L)) + list(range(len(msg)))
+            for ppos in order:
+                if sum(1 for b_ in rx if b_ == ec) >= nsym - 1:
+                    break
+                rx[ppos] = ec
+            candw = [p_ for p_ in range(len(msg)) if rx[p_] != ec]
+            if candw and sum(1 for b_ in rx if b_ == ec) == nsym - 1:
+                wp = rng.choice(candw)
+                rx[wp] = rng.choice([x for x in range(256) if x not in (ec, rx[wp])])
+                within = False
+                m2, p2 = bytes(rx[:len(msg)]), bytes(rx[len(msg):])
+                oc.count("directed: one error + n-k-1 erasures (radius check of the facade)")
+        # the facade also accepts text strings (one character per symbol) for message, ecc and erasure symbol: same result required
+        as_text = (i % 7 == 3)
+        a_m, a_p = (m2.decode("latin-1"), p2.decode("latin-1")) if as_text else (m2, p2)
+        dkw_call = dict(dkw)
+        if as_text and "erasures_char" in dkw_call:
+            dkw_call["erasures_char"] = chr(dkw_call["erasures_char"])
+        if as_text:
+            oc.count("arguments passed as text strings")
         with cu.Recorder() as rec:
             try:
                 with common.quiet():
-                    res = man.decode(m2, p2, **kw, **dkw)
+                    res = man.decode(a_m, a_p, **kw, **dkw_call)
                 out = "ok %s %s" % (hx(bytes(res[0])), hx(bytes(res[1])))
             except Exception as ex:
                 nm = type(ex).__name__
